@@ -114,7 +114,13 @@ func newGetRangeResult(
 
 // Verify verifies inclusion the data in the data root
 func (r *GetRangeResult) Verify(dataRoot []byte) error {
+	if r.Proof == nil {
+		return errors.New("nil proof")
+	}
 	rawShares := libshare.ToBytes(r.Shares)
+	if len(rawShares) != len(r.Proof.Data) {
+		return errors.New("share data mismatch")
+	}
 	for i, shares := range rawShares {
 		if !bytes.Equal(shares, r.Proof.Data[i]) {
 			return errors.New("share data mismatch")
